@@ -213,3 +213,18 @@ PROPS["C09"] = dict(
     technique="bounded-exhaustive enumeration of operand placements on the real code with a differential oracle (standalone copies) and parent snapshots",
     assumptions=["clang 14 ASan+UBSan builds, baseline x86-64 SIMD flags (legacy-encoded SSE2 faults on misaligned vectors) and no-SSE2 min-cache build"],
 )
+
+def _c10_runs(tier):
+    return [Run(C(), "harness/p_c10.c", ["--mode=env", "--setbits=24"], group="env"),
+            Run(C(), "harness/p_c10.c", ["--mode=history"], group="history"),
+            Run(C(sse2=0, **MIN), "harness/p_c10.c", ["--mode=env", "--setbits=24"], group="env"),
+            Run(C(sse2=0, **MIN), "harness/p_c10.c", ["--mode=history"], group="history")]
+
+PROPS["C10"] = dict(
+    level="exploration", runs=_c10_runs,
+    rule="for every op of the registry (81 entry points) x its shapes x 2 data sets, enumerated environment deviations: (i) ALL allocations returning 0xFF-filled / patterned memory, and EACH SINGLE allocation i = 1..N deviating (N = requests counted in the baseline run; capped at 48 per case in quick, uncapped thorough); (ii) the block cache pre-loaded with dirtied blocks of exactly the sizes the op requests; (iii) every ordered pair (thorough: triple) of a 28-call menu run in one process, the last call compared with the same call alone; (iv) prior destination content in {zeros, ones, PR} for every overwriting op; the outcome digest covers every operand, the scalar result and the returned matrix; raw padding of every owned matrix is inspected; non-trivial = every case; distinct = distinct (op, shape, data, deviation)",
+    level_text="Deviation-bounded exhaustive exploration of the environment: the allocator is an adversary whose answers (memory content per allocation, recycled blocks) are enumerated one deviation at a time and all-at-once, call histories are enumerated as ordered pairs/triples, and every outcome must equal the one in the default environment.",
+    level_note="Bounded: one deviation at a time or all at once (not arbitrary subsets); histories of length <= 2 (3). calloc keeps its zeroing semantics. The allocation histories of the caches themselves are explored as a state graph in C14.",
+    technique="deviation-bounded exhaustive enumeration of allocator answers and call histories on the real code (differential against the baseline environment)",
+    assumptions=["--wrap interposition sees every heap request of m4ri (posix_memalign, malloc, calloc, realloc, free)", "ASan's own fill of fresh memory disabled (max_malloc_fill_size=0)"],
+)
